@@ -486,6 +486,8 @@ class Validator:
         self.rejections = []              # (exec, key, text, event)
         self.nfile = 0
         self.known_rewrites = collections.Counter()
+        self.confirmed = set()
+        self.cur_file, self.cur_matched = None, 0
         self.forced = set()               # keys already reported in this run: repaired everywhere to look behind them
         self.key_execs = collections.defaultdict(set)
         self.key_events = collections.Counter()
@@ -523,15 +525,12 @@ class Validator:
                 self.transitions += r.states
                 self.events_validated += m
                 if m != tot:
-                    m2, tot2, _ = tlc_validate(p)       # a rejection counts only if it repeats at the same event
-                    if (m2, tot2) != (m, tot):
-                        raise MachineryError("TLC rejected %s at event %d, then at %d" % (p, m, m2))
                     rej.append((units, m, p))
                 else:
                     os.unlink(p)
         return rej
 
-    def validate(self, execs, max_rounds=4):
+    def validate(self, execs, max_rounds=3):
         """Validate executions; diagnose rejections; repair reported keys and look behind them."""
         pending = list(execs)
         rounds = 0
@@ -572,6 +571,12 @@ class Validator:
         self.key_execs[key].add((x.history, x.variant))
         if key in self.forced or any(k == key for k, _, _ in self.ck.violations):
             return                      # one report per key and run
+        if not self.ck.findings.is_known(PROP, key) and self.cur_file not in self.confirmed:
+            # a rejection is reported only if a second TLC run on the same file stops at the same event
+            m2, tot2, _ = tlc_validate(self.cur_file)
+            if m2 != self.cur_matched:
+                raise MachineryError("TLC rejected %s at event %d, then at %d" % (self.cur_file, self.cur_matched + 1, m2 + 1))
+            self.confirmed.add(self.cur_file)
         case = {"history": x.history, "variant": x.variant, "event": ev, "key": key}
         if extra:
             case.update(extra)
@@ -583,6 +588,7 @@ class Validator:
         x, sy = u.x, self.symb[u.x.variant]
         e = x.events[idx]
         k = t["e"]
+        self.cur_file, self.cur_matched = path, matched
         where = "rejected at event %d of %s (line %d of %s)" % (matched + 1, os.path.basename(path), x.first_line + idx,
                                                              os.path.basename(x.trace))
         if k.startswith("Raw"):
